@@ -218,6 +218,13 @@ func VxC14Program() {
 		rules = []ast.Clause{opRule(ast.DiamondMinus, "p")}
 	case 2:
 		rules = []ast.Clause{copyRule, opRule(ast.BoxMinus, "q")}
+	case 4: // head annotation with one fixed and one variable bound: q(X)@[t0, E] :- p(X)@[S, E].
+		t0 := ast.TemporalBound{Type: ast.TimestampBound, Timestamp: -vxTimeLim}
+		rules = []ast.Clause{{
+			Head:     ast.NewAtom("q", X),
+			HeadTime: &ast.Interval{Start: t0, End: vb(E)},
+			Premises: []ast.Term{ast.TemporalLiteral{Literal: ast.NewAtom("p", X), Interval: &ast.Interval{Start: vb(S), End: vb(E)}}},
+		}}
 	case 3: // chain of annotated rules p -> q -> c -> d (written in reverse order), any map order
 		cp := func(h, b string) ast.Clause {
 			return ast.Clause{
@@ -271,6 +278,13 @@ func VxC14Program() {
 	vxMapOrder(0)
 	if prog == 0 || prog == 2 || prog == 3 {
 		vxAssert(sameSpans(spans("q"), stored), "head-annotation-stores-exactly-the-bound-intervals")
+	}
+	if prog == 4 {
+		var want []vxSpan
+		for _, iv := range stored {
+			want = append(want, vxSpan{-vxTimeLim, iv.e})
+		}
+		vxAssert(sameSpans(spans("q"), want), "head-annotation-resolved-per-solution")
 	}
 	if prog == 3 {
 		vxAssert(sameSpans(spans("c"), stored) && sameSpans(spans("d"), stored), "chained-temporal-rules-propagate-every-interval")
